@@ -138,7 +138,8 @@ type sim struct {
 	w weights
 
 	commitsRound0  int
-	liveStage      int
+	liveStage      int    // 0 faults, 1 stabilised, 2 perfect (reactor-equivalent) gossip, 4 omniscient gossip, 3 done
+	stallClass     string // classifyStall() at the moment perfect gossip was given up
 	liveDeadline   time.Duration
 	liveGoal       int64
 	faultsFired    int
@@ -1021,6 +1022,42 @@ func (s *sim) antiEntropy(a, b *node, budget int) {
 		if rb.Step == cstypes.RoundStepNewHeight && ra.LastCommit != nil && rb.LastCommit != nil {
 			sendVotes(ra.LastCommit, func(i int) bool { return rb.LastCommit.GetByIndex(i) != nil })
 		}
+		if s.net.omni {
+			// (i) the block b waits for, from wherever a holds it
+			if rb.ProposalBlockParts != nil && !rb.ProposalBlockParts.IsComplete() {
+				hdr := rb.ProposalBlockParts.Header()
+				for _, ps := range []*types.PartSet{ra.ProposalBlockParts, ra.LockedBlockParts, ra.ValidBlockParts} {
+					if ps == nil || !ps.HasHeader(hdr) {
+						continue
+					}
+					bb := rb.ProposalBlockParts.BitArray()
+					for i := 0; i < ps.Total(); i++ {
+						if p := ps.GetPart(i); p != nil && !bb.GetIndex(i) {
+							send(&netMsg{msg: &cons.BlockPartMessage{Height: rb.Height, Round: rb.Round, Part: p}, desc: fmt.Sprintf("omni part %d #%d %s", rb.Height, i, short(hdr.Hash))})
+						}
+					}
+					break
+				}
+			}
+			// (ii) every vote of every round a knows; a node waiting in the commit step only gets rounds up to its own
+			// (later rounds' votes are what a byzantine peer would have to relay, see liveness_wedged_...)
+			for r := 0; r <= ra.Votes.Round(); r++ {
+				if rb.Step == cstypes.RoundStepCommit && r > rb.Round {
+					break
+				}
+				for _, t := range []types.SignedMsgType{types.PrevoteType, types.PrecommitType} {
+					var va, vb *types.VoteSet
+					if t == types.PrevoteType {
+						va, vb = ra.Votes.Prevotes(r), rb.Votes.Prevotes(r)
+					} else {
+						va, vb = ra.Votes.Precommits(r), rb.Votes.Precommits(r)
+					}
+					if va != nil {
+						sendVotes(va, func(i int) bool { return vb != nil && vb.GetByIndex(i) != nil })
+					}
+				}
+			}
+		}
 		// gossipVotesForHeight: votes of the PEER's round (and of its proposal's POL round); queryMaj23Routine +
 		// VoteSetBits: the majority we know for those rounds, and the votes for that block the peer lacks
 		rounds := []int{rb.Round}
@@ -1194,6 +1231,14 @@ func (s *sim) checkLiveness() {
 		if s.liveStage == 2 {
 			s.r.Inconcl = "liveness bound missed with the anti-entropy stub, met with perfect gossip"
 		}
+		if s.liveStage == 4 {
+			// the stall depended on what the (stubbed) reactor serves to whom: not decidable without the real reactor
+			s.r.Inconcl = "liveness bound missed with reactor-equivalent perfect gossip, met with omniscient gossip (reactor is a stub: not decided)"
+			s.r.Probe("stall_resolved_only_by_omniscient_gossip")
+			if o, _ := s.stallClass, ""; o != "" {
+				s.r.Probe("stall_resolved_only_by_omniscient_gossip:" + o)
+			}
+		}
 		s.r.Probe("liveness_after_stabilisation")
 		s.liveStage = 3
 		s.stop = true // run complete
@@ -1209,6 +1254,20 @@ func (s *sim) checkLiveness() {
 		s.net.perfect = true
 		s.liveStage = 2
 		s.liveDeadline = s.now() + s.roundBudget(20)
+		s.maxSteps += 4000
+		return
+	}
+	if s.liveStage == 2 {
+		// second miss. Before calling it a defect of the state machine, rule out the gossip stub altogether: offer every
+		// vote of every round and the block parts held as locked/valid block, i.e. more than any reactor would.
+		// Only a stall that survives this is independent of the reactor (which is not run) and reported.
+		s.stallClass, _ = s.classifyStall()
+		s.event("liveness bound missed with perfect gossip (%s); switching to omniscient gossip", s.stallClass)
+		s.r.Probe("liveness_retry_omniscient_gossip")
+		s.net.omni = true
+		s.liveStage = 4
+		s.liveDeadline = s.now() + s.roundBudget(20)
+		s.endAt = s.liveDeadline + 10*time.Second
 		s.maxSteps += 4000
 		return
 	}
@@ -1237,7 +1296,7 @@ func (s *sim) checkLiveness() {
 	}
 	s.liveStage = 3
 	s.stop = true
-	s.fail(prop, oracle, why+"after stabilisation at %v (faults stopped, byzantine silent) and then perfect gossip, honest nodes did not all reach height %d within 2x20 rounds of timeouts: %s",
+	s.fail(prop, oracle, why+"after stabilisation at %v (faults stopped, byzantine silent) and then perfect gossip, honest nodes did not all reach height %d within 3x20 rounds of timeouts (the last 20 with omniscient gossip: every vote of every round and locked/valid block parts offered to everybody): %s",
 		s.net.stabAt, s.liveGoal, strings.Join(hs, " "))
 }
 
